@@ -192,8 +192,10 @@ def DStep.ofGen : Gen.DropStep → DStep
 structure Cfg where
   iourDrop : List Gen.DropStep
   drainChecksMore : Bool
+  /-- `iour::Driver::cancel` queues its SQE through `push_raw` (repair of F9) -/
+  cancelPushRaw : Bool
 
-def Cfg.gen : Cfg := ⟨Gen.iourDriverDrop, Gen.iourDropDrainChecksMore⟩
+def Cfg.gen : Cfg := ⟨Gen.iourDriverDrop, Gen.iourDropDrainChecksMore, Gen.iourCancelUsesPushRaw⟩
 
 def dropProg (c : Cfg) : Drv → List DStep
   | .iour => c.iourDrop.map DStep.ofGen ++ [.fields]
@@ -249,9 +251,9 @@ inductive Event where
   /-- polling `Decision::Completed`: ready at once, the op goes back to the caller -/
   | pushReady (k : Kind) (fd : Nat) (d : Dir) (r : Res)
   /-- `Proactor::cancel(key)` (what dropping a submitted future does) -/
-  | userCancel (id : Nat)
+  | userCancel (id : Nat) (posts : List (Nat × Bool × Res))
   /-- `Proactor::cancel(key.clone())` (`CancelToken::register` on a token that already fired) -/
-  | cloneCancel (id : Nat)
+  | cloneCancel (id : Nat) (posts : List (Nat × Bool × Res))
   /-- plain `drop(key)` -/
   | userDrop (id : Nat)
   /-- `Proactor::pop(key)` -/
@@ -262,7 +264,7 @@ inductive Event where
   | tokenRegister (id : Nat)
   | tokenDrop (id : Nat)
   /-- `Proactor::cancel_token(token)` -/
-  | tokenCancel (id : Nat)
+  | tokenCancel (id : Nat) (posts : List (Nat × Bool × Res))
   -- inside `Driver::poll` / `flush` / the `push_raw` overflow loop
   /-- io_uring `poll`: the multishot `PollAdd` on the notifier eventfd takes an SQ slot -/
   | pushNotifier
@@ -285,13 +287,48 @@ inductive Event where
   | poolDone (id : Nat) (r : Res)
   deriving Repr
 
-/-- io_uring `Driver::cancel`: the AsyncCancel SQE is pushed with a bare `squeue.push`; when the queue is
-full only a warning is logged -/
-def iourCancel (s : State) (id : Nat) : State :=
-  if s.sqLen < s.cap then
-    { s with sqLen := s.sqLen + 1, ops := modAt (fun o => { o with cancelSq := o.cancelSq + 1 }) s.ops id }
-  else
-    { s with ops := modAt (fun o => { o with cancelDropped := o.cancelDropped + 1 }) s.ops id }
+/-- the kernel posts a CQE (same guard and effect as the `kPost` event of `step`, see `step_kPost_eq`) -/
+def kPostStep (s : State) (id : Nat) (more : Bool) (r : Res) : Option State :=
+  match s.ops[id]? with
+  | some o =>
+    if s.ring ∧ s.drv = .iour ∧ o.kstat = .inflight ∧ (more → o.kind = .multi ∨ o.kind = .zc) then
+      if more then
+        some { s with ops := modAt (fun o => { o with pendMore := o.pendMore ++ [r],
+                                                      produced := o.produced ++ [r] }) s.ops id }
+      else
+        some { s with ops := modAt (fun o => { o with pendFinal := some r, kstat := .done,
+                                                      produced := o.produced ++ [r] }) s.ops id }
+    else none
+  | none => none
+
+/-- `io_uring_enter` (same effect as the `submit` event) -/
+def submitAll (s : State) : State := { s with sqLen := 0, ops := s.ops.map Op.submit }
+
+/-- `poll_entries` (same effect as the `pollEntries` event) -/
+def drainAll (s : State) : State := { s with ops := s.ops.map Op.drainCq }
+
+/-- one round of the `push_raw` overflow loop INSIDE a driver call: submit, the kernel posts `posts` (those it
+cannot post are ignored), the completion queue is drained -/
+def overflowDrain (s : State) (posts : List (Nat × Bool × Res)) : State :=
+  drainAll (posts.foldl (fun s p => (kPostStep s p.1 p.2.1 p.2.2).getD s) (submitAll s))
+
+/-- the AsyncCancel SQE of op `id` is written to the submission queue -/
+def queueCancel (s : State) (id : Nat) : State :=
+  { s with sqLen := s.sqLen + 1, ops := modAt (fun o => { o with cancelSq := o.cancelSq + 1 }) s.ops id }
+
+/-- io_uring `Driver::cancel` as it was before the repair of F9: the AsyncCancel SQE is pushed with a bare
+`squeue.push`; when the queue is full only a warning is logged and the cancellation is lost -/
+def iourCancelUnfixed (s : State) (id : Nat) : State :=
+  if s.sqLen < s.cap then queueCancel s id
+  else { s with ops := modAt (fun o => { o with cancelDropped := o.cancelDropped + 1 }) s.ops id }
+
+/-- io_uring `Driver::cancel`: the AsyncCancel SQE goes through `push_raw` — with a full submission queue the
+driver submits, drains the completion queue (completions are reaped INSIDE `cancel`) and retries.
+(`c.cancelPushRaw = false`: the code before the repair.) -/
+def iourCancel (c : Cfg) (s : State) (id : Nat) (posts : List (Nat × Bool × Res)) : State :=
+  if c.cancelPushRaw then
+    if s.sqLen < s.cap then queueCancel s id else queueCancel (overflowDrain s posts) id
+  else iourCancelUnfixed s id
 
 /-- polling `Driver::cancel` → `cancel_one(key.clone(), fd)` → `remove_one` (`queue.remove`, `renew`) →
 `Entry::new_cancelled` sent to the completed channel. Thread-pool ops have `op_type() = None`: nothing. -/
@@ -303,35 +340,35 @@ def pollCancel (s : State) (id : Nat) (o : Op) : State :=
     { s with reg := upd s.reg o.fd q', armed := upd s.armed o.fd q'.event,
              ops := modAt (fun o => { (o.cloneRef.dropRefs (q.occ id)) with chan := o.chan ++ [ECANCELED] }) s.ops id }
 
-def driverCancel (s : State) (id : Nat) (o : Op) : State :=
+def driverCancel (c : Cfg) (s : State) (id : Nat) (o : Op) (posts : List (Nat × Bool × Res)) : State :=
   match s.drv with
-  | .iour => iourCancel s id
+  | .iour => iourCancel c s id posts
   | .poll => pollCancel s id o
 
 /-- the tail shared by `Proactor::cancel` and `Proactor::cancel_token` once `set_cancelled()` returned false and the
 driver has to be asked: the flag is set, `Driver::cancel(key)` runs, and the key that was passed in (counted in
 `rc` and `user`) is dropped -/
-def cancelIssue (s : State) (id : Nat) (o : Op) : State :=
+def cancelIssue (c : Cfg) (s : State) (id : Nat) (o : Op) (posts : List (Nat × Bool × Res)) : State :=
   let s1 := { s with ops := modAt (fun o => { o with cancelled := true }) s.ops id }
-  let s2 := driverCancel s1 id o
+  let s2 := driverCancel c s1 id o posts
   { s2 with ops := modAt (fun o => { o with user := o.user - 1 }.dropRef) s2.ops id }
 
 /-- `Proactor::cancel(key)` where the key passed in is already counted in `rc` and `user` -/
-def cancelKey (s : State) (id : Nat) (o : Op) : State :=
+def cancelKey (c : Cfg) (s : State) (id : Nat) (o : Op) (posts : List (Nat × Bool × Res)) : State :=
   if o.cancelled then
     { s with ops := modAt (fun o => { o with user := o.user - 1 }.dropRef) s.ops id }
   else if o.rc = 1 ∧ o.result.isSome then
     { s with ops := modAt (fun o => { o with cancelled := true }.takeResult) s.ops id }
-  else cancelIssue s id o
+  else cancelIssue c s id o posts
 
 /-- `Proactor::cancel_token(token)`; `o.rc > 0`: `token.upgrade()` yields a temporary key, counted like a
 handle of the caller until it is dropped at the end of the call -/
-def cancelTok (s : State) (id : Nat) (o : Op) : State :=
+def cancelTok (c : Cfg) (s : State) (id : Nat) (o : Op) (posts : List (Nat × Bool × Res)) : State :=
   let o1 : Op := { o.cloneRef with user := o.user + 1 }
   let s0 := { s with ops := modAt (fun o => { o.cloneRef with user := o.user + 1 }) s.ops id }
   if o.cancelled ∨ o.result.isSome then
     { s0 with ops := modAt (fun o => { o with cancelled := true, user := o.user - 1 }.dropRef) s0.ops id }
-  else cancelIssue s0 id o1
+  else cancelIssue c s0 id o1 posts
 
 /-- return value of `cancel_token` -/
 def cancelTokRet (o : Op) : Bool := decide (0 < o.rc) && !o.cancelled && o.result.isNone
@@ -380,16 +417,16 @@ def step (c : Cfg) (s : State) : Event → Option State
       some { s with ops := s.ops ++ [{ (Op.new s.ops.length k fd d).cloneRef.dropRef with
                                          result := some r, produced := [r] }.takeResult] }
     else none
-  | .userCancel id =>
+  | .userCancel id posts =>
     match s.ops[id]? with
-    | some o => if s.alive ∧ 0 < o.user then some (cancelKey s id o) else none
+    | some o => if s.alive ∧ 0 < o.user then some (cancelKey c s id o posts) else none
     | none => none
-  | .cloneCancel id =>
+  | .cloneCancel id posts =>
     match s.ops[id]? with
     | some o =>
       if s.alive ∧ 0 < o.user then
         let o' : Op := { o.cloneRef with user := o.user + 1 }
-        some (cancelKey { s with ops := modAt (fun o => { o.cloneRef with user := o.user + 1 }) s.ops id } id o')
+        some (cancelKey c { s with ops := modAt (fun o => { o.cloneRef with user := o.user + 1 }) s.ops id } id o' posts)
       else none
     | none => none
   | .userDrop id =>
@@ -428,11 +465,11 @@ def step (c : Cfg) (s : State) : Event → Option State
       if 0 < o.weak then some { s with ops := modAt (fun o => { o with weak := o.weak - 1 }) s.ops id }
       else none
     | none => none
-  | .tokenCancel id =>
+  | .tokenCancel id posts =>
     match s.ops[id]? with
     | some o =>
       if s.alive ∧ 0 < o.weak then
-        if o.rc = 0 then some s else some (cancelTok s id o)
+        if o.rc = 0 then some s else some (cancelTok c s id o posts)
       else none
     | none => none
   | .pushNotifier =>
@@ -516,15 +553,16 @@ def Token.new : Token := ⟨[], false⟩
 
 /-- `CancelToken::register(&key)`: on a fired token the key is cancelled at once through a clone
 (`driver.cancel(key.clone())`); otherwise a weak `Cancel` is made and inserted (a duplicate is dropped) -/
-def Token.register (t : Token) (id : Nat) : Token × List Event :=
-  if t.fired then (t, [.cloneCancel id])
+def Token.register (t : Token) (id : Nat) (posts : List (Nat × Bool × Res)) : Token × List Event :=
+  if t.fired then (t, [.cloneCancel id posts])
   else if id ∈ t.regs then (t, [.tokenRegister id, .tokenDrop id])
   else ({ t with regs := t.regs ++ [id] }, [.tokenRegister id])
 
 /-- `CancelToken::cancel()`: first call takes the set and passes every token to `Proactor::cancel_token`
-(which consumes it); later calls do nothing -/
-def Token.cancel (t : Token) : Token × List Event :=
+(which consumes it); later calls do nothing. `env id` = what the kernel posts should the driver have to submit
+inside that `cancel_token` call (environment input). -/
+def Token.cancel (t : Token) (env : Nat → List (Nat × Bool × Res)) : Token × List Event :=
   if t.fired then (t, [])
-  else (⟨[], true⟩, (t.regs.map fun id => [Event.tokenCancel id, Event.tokenDrop id]).flatten)
+  else (⟨[], true⟩, (t.regs.map fun id => [Event.tokenCancel id (env id), Event.tokenDrop id]).flatten)
 
 end Compio.KeyLife
